@@ -128,3 +128,9 @@ DELAY_BEFORE_PUSH = {
     "ab_dfix_linear": T(["A", "B"], [("A", "B", ["dfix", "linear"])]),
     "ab_dpull_next": T(["A", "B"], [("A", "B", ["dpull1", "next"])]),
 }
+
+# a component that declares itself FINISHED after 1 / 2 updates next to an independent pair
+FINISHING = {
+    "finisher_alone": T([{"name": "F", "finish_after": 1}, "A", "B"], [("A", "B")]),
+    "finisher_feeds_dpush": T([{"name": "F", "finish_after": 2}, "B"], [("F", "B", ["dpush"])]),
+}
